@@ -581,6 +581,8 @@ Section Sized.
     q_expect q = true -> q_dest q = Some d -> route B d = Some j ->
     q_sig q = Some (WireSpec.show_list ts_in) -> q_args q = args ->
     constructible q -> n <= Calls.max_serial ->
+  (forall body, encode_body (g_fuel g) (q_sig q) (PTuple (q_args q)) (Some []) = Ok body ->
+                too_big (g_limit g) (g_fuel g) (call_msg q n body) = false) ->
     SystemSpec.passed ts_in args ws_in (g_fuel g) ->
     DispatchSpec.distinct_interfaces (g_exports g j) -> DispatchSpec.builtin dc = false ->
     DispatchSpec.addressed (g_exports g j) dc = DispatchSpec.TMethod o im m ->
@@ -612,7 +614,7 @@ End Sized.
       leaves open                                                            *)
 
 Definition z_cfg : config :=
-  mkCfg (g_fuel x_cfg) (g_proc x_cfg) (g_exports x_cfg) (g_beh x_cfg) (fun _ => (x_iface, [])).
+  mkCfg (g_fuel x_cfg) (g_proc x_cfg) (g_exports x_cfg) (g_beh x_cfg) (fun _ => (x_iface, [])) (g_limit x_cfg).
 
 Lemma z_cfg_ok : cfg_ok z_cfg.
 Proof.
